@@ -27,8 +27,8 @@ class Block:
         self.term = None
 
 
-HEADER_FN = re.compile(r"^fn ([^\s(]+)\((.*)\) -> (.+) \{$")
-HEADER_FN_UNIT = re.compile(r"^fn ([^\s(]+)\((.*)\) \{$")
+HEADER_FN = re.compile(r"^fn (.+?)\(((?:_\d+: .*)?)\) -> (.+) \{$")
+HEADER_FN_UNIT = re.compile(r"^fn (.+?)\(((?:_\d+: .*)?)\) \{$")
 HEADER_CONST = re.compile(r"^(?:const|static) (.+?): (.+) = \{$")
 LOCAL = re.compile(r"^\s*let (?:mut )?(_\d+): (.+);$")
 BB = re.compile(r"^\s*(bb\d+)( \(cleanup\))?: \{$")
